@@ -1,5 +1,6 @@
 import Chewing.Proofs.EditorFrame
 import Chewing.Props.C05
+import Chewing.Props.C06
 /-!
 Helper lemmas for C02 (what is committed is what was displayed).
 
@@ -12,7 +13,7 @@ Helper lemmas for C02 (what is committed is what was displayed).
   lemma per arm of the four states' `next`.
 -/
 namespace Chewing.C02
-open Chewing
+open Chewing Chewing.C06
 
 variable {D L : Type} (env : Env D L)
 
@@ -752,5 +753,89 @@ theorem highlighting_nocommit (m : Nat) (sh : Shared D L) (ev : KeyEvent) :
   all_goals
     rename_i sh' b hq
     exact ⟨by simp, (learnInRangeNotify_commitBuf env _ _ _).elim hq⟩
+
+/-! ### glue for `process_keyevent` (`C06.processKey_eq`: preamble, dispatch, tail) -/
+
+/-- the preamble of a key (tick, reset of the per-key buffers) does not change what is displayed -/
+theorem display_preamble (sh : Shared D L) : Shared.display env (preamble sh) = Shared.display env sh :=
+  display_congr env rfl rfl rfl rfl
+
+theorem dispatch_entering {e : Editor D L} (ev : KeyEvent) (hs : e.state = .entering) :
+    dispatch env e ev =
+      (enteringNext env (preamble e.shared) ev).map fun (sh', t) => applyTrans sh' .entering t := by
+  unfold dispatch; rw [hs]
+
+/-- the dictionary flush at the end of `process_keyevent` -/
+def flush (sh : Shared D L) : Shared D L :=
+  if sh.dirty > 0 then { sh with dict := env.reopenFlush sh.dict, dirty := 0 } else sh
+
+theorem flush_fields (sh : Shared D L) :
+    (flush env sh).commitBuf = sh.commitBuf ∧ (flush env sh).com = sh.com ∧ (flush env sh).last = sh.last ∧
+    (flush env sh).nth = sh.nth ∧ (flush env sh).options = sh.options ∧ (flush env sh).engine = sh.engine := by
+  unfold flush; split <;> exact ⟨rfl, rfl, rfl, rfl, rfl, rfl⟩
+
+/-- the part of `process_keyevent` after the state's `next`, case by case -/
+theorem tail_spec {sh : Shared D L} {st : St} {e' : Editor D L} {b : KB} (h : tail env sh st = .ok (e', b)) :
+    e'.state = st ∧
+    ((e'.shared = flush env sh ∧ b = sh.last ∧
+        (st = .entering → sh.last = .absorb → sh.com.len ≤ sh.options.autoCommitThreshold)) ∨
+     (st = .entering ∧ sh.last = .absorb ∧ sh.options.autoCommitThreshold < sh.com.len ∧ b = .commit ∧
+        ∃ sh2, Shared.tryAutoCommit env sh = .ok sh2 ∧ e'.shared = flush env sh2)) := by
+  unfold tail at h
+  by_cases hc : (st == .entering && sh.last == .absorb) = true
+  · rw [if_pos hc] at h
+    simp only [Bool.and_eq_true] at hc
+    have hst : st = .entering := eq_of_beq hc.1
+    have hl : sh.last = .absorb := eq_of_beq hc.2
+    by_cases hlen : sh.com.len ≤ sh.options.autoCommitThreshold
+    · rw [tryAutoCommit_noop env hlen] at h
+      simp only at h
+      injection h with h; injection h with h1 h2
+      refine ⟨by rw [← h1], Or.inl ⟨by rw [← h1]; rfl, ?_, fun _ _ => hlen⟩⟩
+      rw [← h2]; exact (flush_fields env sh).2.2.1
+    · have hlt : sh.options.autoCommitThreshold < sh.com.len := by omega
+      cases hr : Shared.tryAutoCommit env sh with
+      | ok sh2 =>
+        rw [hr] at h; simp only at h
+        injection h with h; injection h with h1 h2
+        obtain ⟨ivs, k, com, _, _, _, _, hsh2, _⟩ := tryAutoCommit_spec env hr hlt
+        refine ⟨by rw [← h1], Or.inr ⟨hst, hl, hlt, ?_, sh2, rfl, by rw [← h1]; rfl⟩⟩
+        rw [← h2]
+        have : (flush env sh2).last = sh2.last := (flush_fields env sh2).2.2.1
+        unfold flush at this
+        rw [this, hsh2]
+      | panic p => rw [hr] at h; cases h
+      | outOfFuel => rw [hr] at h; cases h
+  · rw [if_neg hc] at h
+    simp only at h
+    injection h with h; injection h with h1 h2
+    refine ⟨by rw [← h1], Or.inl ⟨by rw [← h1]; rfl, ?_, ?_⟩⟩
+    · rw [← h2]; exact (flush_fields env sh).2.2.1
+    · intro h3 h4; rw [h3, h4] at hc; exact absurd rfl hc
+
+theorem len_eq (c : CompEditor) : c.len = c.inner.symbols.length := rfl
+
+theorem nocommit_startSelecting (sh : Shared D L) : NoCommit sh.commitBuf (startSelecting env sh) := by
+  unfold startSelecting newPhrase newSpecialSymbol
+  repeat' (first | split | (dsimp only; split))
+  all_goals first
+    | nocommit_leaf
+    | (intro _ _ h; cases h; done)
+
+/-- one interval per symbol, text chosen by `f` -/
+def perSym (f : Sym → Nat) : Nat → List Sym → List Interval
+  | _, [] => []
+  | start, s :: rest => { start := start, stop := start + 1, isPhrase := s.isSyl, text := [f s] } :: perSym f (start + 1) rest
+
+theorem perSym_tiles (f : Sym → Nat) (syms : List Sym) : ∀ start, Tiles start (start + syms.length) (perSym f start syms) := by
+  induction syms with
+  | nil => intro start; simp [perSym, Tiles]
+  | cons s rest ih =>
+    intro start
+    refine ⟨rfl, Nat.lt_succ_self _, by simp, ?_⟩
+    have := ih (start + 1)
+    simp only [List.length_cons]
+    rw [show start + (rest.length + 1) = start + 1 + rest.length by omega]
+    exact this
 
 end Chewing.C02
